@@ -4,8 +4,8 @@
 //! as a metamorphic oracle.
 //!
 //! API coverage (notes/api_coverage.md): a third of the builders is made with `ArrayBuilder::new(SerdeArrowSchema)`
-//! instead of `ArrayBuilder::from_marrow(fields)` (the schema comes from `SerdeArrowSchema::try_from(&[arrow Field])`
-//! and is only used when it observably holds exactly the given fields); `ser_owned` moves the builder into
+//! instead of `ArrayBuilder::from_marrow(fields)` (the schema comes from `SerdeArrowSchema::try_from(&[arrow Field])` or
+//! from `SerdeArrowSchema::from_value(&fields)` and is only used when it observably holds exactly the given fields); `ser_owned` moves the builder into
 //! `Serializer::new(builder)` and takes it back with `into_inner()`; batches also arrive in every other shape the two
 //! front ends accept (tuple variant, newtype struct / variant around a sequence, `Some(sequence)`), and a few
 //! histories end with a value that is not a collection of records (refused by both front ends).  Errors are recorded
@@ -52,7 +52,11 @@ pub fn gen(ctx: &Ctx) -> Vec<Value> {
         ops.push(json!({"op": "build"}));
         // API coverage: choices from a stream of their own (the histories above stay what they were)
         let mut x = Rng::new(sub ^ 0xA91_C07E);
-        let ctor = if x.chance(1, 3) { "new" } else { "from_marrow" };
+        let ctor = match x.below(6) {
+            0 => "new",
+            1 => "new_value",
+            _ => "from_marrow",
+        };
         for op in ops.iter_mut() {
             let kind = op["op"].as_str().unwrap().to_string();
             if kind == "ser" && x.chance(1, 3) {
@@ -123,11 +127,16 @@ fn wrap(as_: &str, rows: &[Value]) -> Value {
 /// `ArrayBuilder::new(schema)` needs a `SerdeArrowSchema`; the only public ways to one from marrow fields go through a
 /// foreign field list (`try_from(&[arrow Field])`) or the serde form (`from_value`, which validates).  The conversion is
 /// used when the schema it gives observably holds exactly `fields` (read back through `Vec<FieldRef>::try_from`).
-fn schema_of(fields: &[marrow::datatypes::Field]) -> Option<serde_arrow::schema::SerdeArrowSchema> {
-    use serde_arrow::schema::SerdeArrowSchema;
+fn schema_of(fields: &[marrow::datatypes::Field], via_value: bool) -> Option<serde_arrow::schema::SerdeArrowSchema> {
+    use serde_arrow::schema::{SchemaLike, SerdeArrowSchema};
     std::panic::catch_unwind(|| {
-        let arrow: Vec<arrow_schema::Field> = fields.iter().map(arrow_schema::Field::try_from).collect::<Result<_, _>>().ok()?;
-        let schema = SerdeArrowSchema::try_from(&arrow[..]).ok()?;
+        let schema = if via_value {
+            // the validating path: the marrow fields as a foreign schema value (may refuse or normalise: then not used)
+            SerdeArrowSchema::from_value(fields).ok()?
+        } else {
+            let arrow: Vec<arrow_schema::Field> = fields.iter().map(arrow_schema::Field::try_from).collect::<Result<_, _>>().ok()?;
+            SerdeArrowSchema::try_from(&arrow[..]).ok()?
+        };
         let refs = Vec::<arrow_schema::FieldRef>::try_from(&schema).ok()?;
         let back: Vec<marrow::datatypes::Field> =
             refs.iter().map(|f| marrow::datatypes::Field::try_from(f.as_ref())).collect::<Result<_, _>>().ok()?;
@@ -154,8 +163,12 @@ pub fn exec(input: &Value) -> Value {
     let fields: Vec<marrow::datatypes::Field> = input["schema"].as_array().unwrap().iter().map(field_from_json).collect();
     let mut outs: Vec<Value> = Vec::new();
     let mut oneshots: Vec<Value> = Vec::new();
-    let schema = if input["ctor"] == "new" { schema_of(&fields) } else { None };
-    let ctor_used = if schema.is_some() { "new" } else { "from_marrow" };
+    let schema = match input["ctor"].as_str() {
+        Some("new") => schema_of(&fields, false),
+        Some("new_value") => schema_of(&fields, true),
+        _ => None,
+    };
+    let ctor_used = if schema.is_some() { input["ctor"].as_str().unwrap() } else { "from_marrow" };
     let make = || match &schema {
         Some(s) => serde_arrow::ArrayBuilder::new(s.clone()),
         None => serde_arrow::ArrayBuilder::from_marrow(&fields),
